@@ -175,33 +175,47 @@ func (p PubSubBackend[Result]) ListenForNotifications(
 		defer close(replyChan)
 		defer cancel()
 
+		// the caller may have stopped reading replyChan: a send must never outlive the context
+		sendReply := func(reply Reply[Result]) {
+			select {
+			case replyChan <- reply:
+			case <-ctx.Done():
+			}
+		}
+
 		for {
 			select {
 			case <-ctx.Done():
-				replyChan <- Reply[Result]{
+				select {
+				case replyChan <- Reply[Result]{
 					Error: ReplyTimeoutError{time.Since(start), ctx.Err()},
+				}:
+				default:
 				}
 				return
 			case notifyMsg, ok := <-notifyMsgs:
 				if !ok {
 					// subscriber is closed
-					replyChan <- Reply[Result]{
+					select {
+					case replyChan <- Reply[Result]{
 						Error: ReplyTimeoutError{time.Since(start), fmt.Errorf("subscriber closed")},
+					}:
+					default:
 					}
 					return
 				}
 
 				resp, ok, unmarshalErr := p.handleNotifyMsg(notifyMsg, string(params.OperationID), p.marshaler)
 				if unmarshalErr != nil {
-					replyChan <- Reply[Result]{
+					sendReply(Reply[Result]{
 						Error: ReplyUnmarshalError{unmarshalErr},
-					}
+					})
 				} else if ok {
-					replyChan <- Reply[Result]{
+					sendReply(Reply[Result]{
 						HandlerResult:       resp.HandlerResult,
 						Error:               resp.Error,
 						NotificationMessage: notifyMsg,
-					}
+					})
 				}
 
 				// we assume that more messages may arrive (in case of fan-out commands handling) - we don't exit yet
